@@ -198,6 +198,10 @@ def safe_callable_names(root: ast.Module) -> Collection[str]:
         node.name
         for node in core.walk(root, (ast.FunctionDef, ast.AsyncFunctionDef, ast.ClassDef))
     )
+    # An import binds the name as well: try: from lib import notify / except ImportError: def notify
+    definition_count.update(
+        (alias.asname or alias.name).split(".")[0] for alias in core.walk(root, ast.alias)
+    )
     changes = True
     while changes:
         changes = False
@@ -232,6 +236,8 @@ def safe_callable_names(root: ast.Module) -> Collection[str]:
     for node in core.walk(root, ast.ClassDef):
         if definition_count[node.name] > 1 or node.name in defined_names:
             continue  # Which of the definitions a call means is not known
+        if node.decorator_list:
+            continue  # The name is bound to whatever the decorator returns
 
         constructors = {
             child
